@@ -99,6 +99,16 @@ func (fr *c01Fresh) newFrame0(fi *FuncInfo, depth int) *c01Frame {
 			}
 		case *ast.RangeStmt:
 			fm.rangeX[x.X] = x
+			// the element variable of a range over a constant table of the package (a table of required columns ...)
+			if x.Value != nil {
+				if vo := objOf(info, x.Value); vo != nil {
+					if _, lax := c01ZeroLax(vo.Type()); lax && c01TableLitOf(fr, x.X) != nil {
+						root := c01RootName(vo)
+						fm.roots[vo] = root
+						fm.names[root] = vo.Name()
+					}
+				}
+			}
 			if x.Key != nil {
 				if o := objOf(info, x.Key); o != nil {
 					relevant[o] = true
@@ -326,6 +336,7 @@ func (fr *c01Fresh) run(fi *FuncInfo, st c01St, args []c01Val, depth int) []c01E
 				if cond != nil && len(b.Succs) == 2 {
 					if cond == b.Nodes[len(b.Nodes)-1] {
 						fm.uses(cond, ev)
+						fm.cellUses(cond, ev)
 					}
 					v := ev.eval(cond)
 					if v.k == 'B' && ((si == 0 && v.i == 0) || (si == 1 && v.i == 1)) {
@@ -379,13 +390,42 @@ func (fm *c01Frame) rangeStep(b *cfg.Block, o c01Out, push func(*cfg.Block, c01S
 		return false
 	}
 	info := fm.fr.info
-	t := info.TypeOf(rs.X)
+	// `range A` or `range A[lo:hi]` with constant bounds, A a tracked fixed-length array (or a pointer to one)
+	var base ast.Expr = ast.Unparen(rs.X)
+	lo, hi := int64(0), int64(-1)
+	if se, isSlice := base.(*ast.SliceExpr); isSlice && !se.Slice3 {
+		base = ast.Unparen(se.X)
+		if se.Low != nil {
+			v, okc := constInt(info, se.Low)
+			if !okc || v < 0 {
+				return false
+			}
+			lo = v
+		}
+		if se.High != nil {
+			v, okc := constInt(info, se.High)
+			if !okc {
+				return false
+			}
+			hi = v
+		}
+	}
+	t := info.TypeOf(base)
 	if pt, isPtr := t.Underlying().(*types.Pointer); isPtr {
 		t = pt.Elem()
 	}
 	at, isArr := t.Underlying().(*types.Array)
-	if !isArr || !c01Trackable(t) {
+	tableLit := c01TableLitOf(fm.fr, base)
+	if tableLit != nil {
+		if _, lax := c01ZeroLax(at0(t)); !lax {
+			tableLit = nil
+		}
+	}
+	if !isArr || (!c01Trackable(t) && tableLit == nil) {
 		return false
+	}
+	if hi < 0 || hi > at.Len() {
+		hi = at.Len()
 	}
 	ev := &c01Ev{fm: fm, st: o.st, res: o.res}
 	ctr := fmt.Sprintf("range@%d", rs.Pos())
@@ -393,7 +433,7 @@ func (fm *c01Frame) rangeStep(b *cfg.Block, o c01Out, push func(*cfg.Block, c01S
 	if v, ok := o.st.cells[ctr]; ok && v.k == 'I' {
 		c = v.i
 	}
-	if c >= at.Len() {
+	if c+lo >= hi {
 		ns := o.st.clone()
 		delete(ns.cells, ctr)
 		push(b.Succs[1], ns)
@@ -409,12 +449,16 @@ func (fm *c01Frame) rangeStep(b *cfg.Block, o c01Out, push func(*cfg.Block, c01S
 	if rs.Value != nil {
 		if root, ok := fm.roots[objOf(info, rs.Value)]; ok {
 			elem := c01Unknown
-			if p := ev.path(rs.X); p != "" {
-				elem = o.st.get(fmt.Sprintf("%s[%d]", p, c))
-			} else if xv := ev.eval(rs.X); xv.k == 'C' {
-				elem = c01Sub(xv, fmt.Sprintf("[%d]", c))
+			if tableLit != nil && int(c+lo) < len(tableLit.Elts) {
+				if _, isKV := tableLit.Elts[c+lo].(*ast.KeyValueExpr); !isKV {
+					elem = ev.eval(tableLit.Elts[c+lo])
+				}
+			} else if p := ev.path(base); p != "" {
+				elem = o.st.get(fmt.Sprintf("%s[%d]", p, c+lo))
+			} else if xv := ev.eval(base); xv.k == 'C' {
+				elem = c01Sub(xv, fmt.Sprintf("[%d]", c+lo))
 			}
-			if elem.k == 'U' {
+			if elem.k == 'U' && tableLit == nil {
 				elem = c01UnknownOf(at.Elem())
 			}
 			ns.set(root, elem)
@@ -444,4 +488,25 @@ func c01Hash(s string) uint64 {
 		h *= 1099511628211
 	}
 	return h
+}
+
+// at0 returns the element type of an array type (or t itself).
+func at0(t types.Type) types.Type {
+	if a, ok := t.Underlying().(*types.Array); ok {
+		return a.Elem()
+	}
+	return t
+}
+
+// c01TableLitOf: x names a package-level array that is a constant table (declared with a literal, never written);
+// it returns the literal.
+func c01TableLitOf(fr *c01Fresh, x ast.Expr) *ast.CompositeLit {
+	o := objOf(fr.info, ast.Unparen(x))
+	if o == nil {
+		return nil
+	}
+	if _, isArr := o.Type().Underlying().(*types.Array); !isArr {
+		return nil
+	}
+	return c01ConstTable(fr.cm.m.pk, o)
 }
